@@ -487,3 +487,6 @@ Definition c16_sirange_size (t : c16_ity) (from to : Z) : Z := c16_irange_size t
 (* ArrayList::begin() / end(): ArrayListIterator( *this, start_ ) and ( *this, start_ + size_ ) *)
 Definition c16_alist_begin (start : Z) : Z := c16_wrap 64 start.
 Definition c16_alist_end (start size : Z) : Z := c16_wrap 64 (start + size).
+
+(* std::swap of two iterators (three moves); a moved-from iterator is a copy for all the classes here (trivially copyable members) *)
+Definition c16_swap {P} (x y : P) : P * P := let tmp := c16_copy x in (c16_copy y, tmp).
